@@ -430,5 +430,54 @@ pub fn main(args: &[String]) {
     let len = arg_u64(args, "--len", 30) as usize;
     let mut rng = Rng::new(seed ^ 0x10);
     all_mem_impls!(random_all, &mut rng, nhist, len, &mut tr);
+    foreign_indices(&mut tr);
     println!("events {}", tr.finish());
+}
+
+/// `get_term` / `get_graph_name` with an index this term index never issued (one past the end, far past the end, an index issued by a
+/// clone that kept growing, the reserved default-graph index): the documented outcome is a panic; whatever happens, safe code can only
+/// get a panic or one of the index's own terms - never memory the index does not own.
+fn foreign_indices(tr: &mut Trace) {
+    use sophia_inmem::index::{GraphNameIndex, SimpleTermIndex, TermIndex};
+    fn probe<I: sophia_inmem::index::Index + std::fmt::Debug>(name: &str, tr: &mut Trace)
+    where
+        I: TryFrom<usize>,
+    {
+        for n in [0usize, 1, 3, 40] {
+            let mut idx = SimpleTermIndex::<I>::new();
+            let mut own: Vec<Value> = vec![];
+            for k in 0..n {
+                let t = iri(&format!("http://ex/own{k}"));
+                if idx.ensure_index(&t).is_ok() {
+                    own.push(term_json(&t));
+                }
+            }
+            let mut bigger = idx.clone();
+            for k in 0..5 {
+                let _ = bigger.ensure_index(&iri(&format!("http://ex/more{k}")));
+            }
+            for (what, j) in [("one-past-the-end", n), ("far-past-the-end", n + 1000), ("issued-by-a-clone-that-grew", n + 4)] {
+                let Ok(i) = I::try_from(j) else { continue };
+                let out = match guarded(|| term_json(idx.get_term(i))) {
+                    Err(_) => json!({"k":"panic"}),
+                    Ok(t) => json!({"k": if own.contains(&t) { "own-term" } else { "foreign" }, "t": t}),
+                };
+                tr.emit(json!({"ev":"ForeignIndex","impl":name,"len":n,"what":what,"via":"get_term","out":out,"obs":[]}));
+            }
+            let dg = idx.get_default_graph_index();
+            let out = match guarded(|| idx.get_graph_name(dg).map(term_json)) {
+                Err(_) => json!({"k":"panic"}),
+                Ok(None) => json!({"k":"default-graph"}),
+                Ok(Some(t)) => json!({"k": if own.contains(&t) { "own-term" } else { "foreign" }, "t": t}),
+            };
+            tr.emit(json!({"ev":"ForeignIndex","impl":name,"len":n,"what":"default-graph-index","via":"get_graph_name","out":out,"obs":[]}));
+            let out = match guarded(|| term_json(idx.get_term(dg))) {
+                Err(_) => json!({"k":"panic"}),
+                Ok(t) => json!({"k": if own.contains(&t) { "own-term" } else { "foreign" }, "t": t}),
+            };
+            tr.emit(json!({"ev":"ForeignIndex","impl":name,"len":n,"what":"default-graph-index","via":"get_term","out":out,"obs":[]}));
+        }
+    }
+    probe::<u16>("SimpleTermIndex<u16>", tr);
+    probe::<u32>("SimpleTermIndex<u32>", tr);
 }
